@@ -144,9 +144,8 @@ def gen_cases(ctx):
 def _cmp_cfg(model, snap):
     exp = bytearray(model.cfg_bytes())
     act = bytearray(snap["cfg"])
-    if model.irq_dontcare:
-        exp[0] &= 0x0F
-        act[0] &= 0x0F
+    exp[0] &= model.cfg_mask
+    act[0] &= model.cfg_mask
     if model.crc_dc:
         exp[0] &= ~0x08 & 0xFF
         act[0] &= ~0x08 & 0xFF
@@ -220,6 +219,8 @@ def run_case(ctx, case):
                               "after %r: %s (history %r)" % (op, "; ".join(d), ops_done), case)
                 return
             model = chosen
+            if model.r[1] and not model.r[0] & 0x08:
+                model.crc_dc = True  # EN_CRC=0 under a forcing EN_AA (A5): latching is chip-dependent
             if model.crc_dc:
                 model.r[0] = (model.r[0] & ~0x08) | (radio.r[0] & 0x08)
             if op[0] == "start_carrier_wave" and not plus:
@@ -228,7 +229,7 @@ def run_case(ctx, case):
                 carrier_nonplus = 2
             elif op[0] in ("reenter", "enter") and carrier_nonplus:
                 carrier_nonplus = 0
-                model.irq_dontcare = False
+                model.cfg_mask = 0xFF
             if case["poll"] and not carrier_nonplus:
                 if not _poll_getters(ctx, case, radio, obj, model, op, ops_done):
                     return
